@@ -594,7 +594,17 @@ theorem tinv_handleRestart (s : Sys) (self : Cid) (hself : self < s.n)
       (fun x => { x with restarting := none, state := .running, inc := x.inc + 1 }) hs1
       (fun _ => ⟨rfl, rfl⟩) (Or.inl (by simp)) h1
     rw [dropEx_self, dropEx_none] at this
-    exact tinv_sameT (st_say _ (st_upd self (fun x => { x with paused := false }) (fun _ => rfl) (sameT_tell _ _ _ _ _))) this
+    split
+    · -- repaired: the new incarnation's OnLaunch runs right here; `self` is running again
+      have hT := st_say s!"restarted:{self}" (sameT_upd
+        (upd (upd s self (fun x => { x with behaviors := [x.script] })) self
+          (fun x => { x with restarting := none, state := .running, inc := x.inc + 1 }))
+        self (fun x => { x with paused := false }) (fun _ => rfl))
+      have hal : Alive none (say (upd (upd (upd s self (fun x => { x with behaviors := [x.script] })) self
+          (fun x => { x with restarting := none, state := .running, inc := x.inc + 1 })) self (fun x => { x with paused := false }))
+          s!"restarted:{self}") self := ⟨hself, Or.inl (by simp)⟩
+      exact (tinv_execRecover none none _ self _ _ _ (tinv_sameT hT this) hal hal).1
+    · exact tinv_sameT (st_say _ (st_upd self (fun x => { x with paused := false }) (fun _ => rfl) (sameT_tell _ _ _ _ _))) this
 
 /-- Marking `self` terminated: it becomes the exception for both tables. -/
 theorem tinv_markKilled (s : Sys) (self : Cid) (hself : self < s.n) (hi : TablesInv none none s) :
